@@ -381,6 +381,21 @@ func (s *signed17) tamper(t string, attrs bool) error {
 	return nil
 }
 
+func samePublicKey(a, b interface{}) bool {
+	switch x := a.(type) {
+	case *rsa.PublicKey:
+		y, ok := b.(*rsa.PublicKey)
+		return ok && x.N.Cmp(y.N) == 0 && x.E == y.E
+	case *ecdsa.PublicKey:
+		y, ok := b.(*ecdsa.PublicKey)
+		return ok && x.X.Cmp(y.X) == 0 && x.Y.Cmp(y.Y) == 0
+	case *sm2.PublicKey:
+		y, ok := b.(*sm2.PublicKey)
+		return ok && x.X.Cmp(y.X) == 0 && x.Y.Cmp(y.Y) == 0
+	}
+	return false
+}
+
 func certDER(rc m7RawCerts) []byte {
 	var v asn1.RawValue
 	asn1.Unmarshal(rc.Raw, &v)
@@ -927,7 +942,7 @@ func c17sweep(args []string) error {
 								}
 							}
 							sc := p7.GetOnlySigner()
-							if sc == nil || !bytes.Equal(sc.RawSubjectPublicKeyInfo, certOf(kind, h17["a"]).RawSubjectPublicKeyInfo) {
+							if sc == nil || !samePublicKey(sc.PublicKey, certOf(kind, h17["a"]).PublicKey) { // (the key, not its encoding: a changed NULL parameter leaves the key alone)
 								probs = append(probs, "signer key differs")
 							}
 							if len(probs) > 0 {
